@@ -119,6 +119,17 @@ class TimerMonitor:
                     ck.seen('tm.gave_up_states', b['state'])
                     if len(r['times']) < MAXR:
                         ck.violation(f'gave-up-before-using-the-retransmission-budget:{b["state"]}', {'transmissions': len(r['times'])}, case)
+                    if getattr(sim, 'lossless_run', False) and not sim.net:
+                        # nothing was lost in this run and nothing is still in flight (every copy of the request reached the peer): a request can only
+                        # stay unanswered for ever if the peer no longer has the IKE_SA
+                        sa = self.objs.get(oid)
+                        pair = (bytes(sa.spi_i), bytes(sa.spi_r)) if sa is not None else None
+                        holders = [(e.name, x.state.name) for e in sim.eps.values() if e is not ep for x in e.ctl.ike_sas
+                                   if (bytes(x.spi_i), bytes(x.spi_r)) == pair and x.state.name not in ('DELETED', 'REKEYED', 'DEL_AFTER_REKEY_IKE_SA_REQ_SENT', 'DEL_IKE_SA_REQ_SENT')]
+                        ck.count('tm.gave_up_in_a_lossless_run')
+                        if holders:
+                            ck.violation(f'request-never-answered-although-nothing-was-lost-and-the-peer-still-holds-the-ike-sa:{b["state"]}',
+                                         {'peer': holders, 'transmissions': len(r['times']), 'trace': sim.trace[-10:]}, case)
         # ---- DPD
         if not self.judge_dpd:
             return
